@@ -451,27 +451,19 @@ impl AppConfig {
                 let node_count = self.node_count()?;
                 let effective_replication_factor =
                     (self.replication.factor as usize).min(node_count);
-                let mut assigned = HashSet::new();
+                let node_index = self.node.index as usize;
 
-                let buckets_per_node = self.bucket.count as usize / node_count;
-                let extra_buckets = self.bucket.count as usize % node_count;
-
-                // For each replica position this node participates in
-                for replica_offset in 0..effective_replication_factor {
-                    // Which node position are we a replica for?
-                    let primary_node =
-                        (self.node.index as usize + node_count - replica_offset) % node_count;
-
-                    // Calculate that node's bucket range
-                    let start = primary_node * buckets_per_node + primary_node.min(extra_buckets);
-                    let extra = if primary_node < extra_buckets { 1 } else { 0 };
-                    let count = buckets_per_node + extra;
-
-                    // Add all buckets in that range
-                    for bucket_id in start..(start + count) {
-                        assigned.insert(bucket_id.try_into().unwrap());
-                    }
-                }
+                // A bucket's primary node is `bucket_id % node_count`, and it is replicated
+                // on the following `effective_replication_factor - 1` nodes. This is the rule
+                // the cluster topology routes by, so storage must follow it exactly.
+                let assigned = (0..self.bucket.count)
+                    .filter(|bucket_id| {
+                        let primary_node = *bucket_id as usize % node_count;
+                        (0..effective_replication_factor).any(|replica_offset| {
+                            (primary_node + replica_offset) % node_count == node_index
+                        })
+                    })
+                    .collect();
 
                 Ok(assigned)
             }
